@@ -1,7 +1,8 @@
 //! C20: polynomial arithmetic (math/src/polynom/mod.rs) and batch utilities (math/src/utils/mod.rs).
 //!
 //! Op lines (mirrored by lean/Winter/Drv/C20.lean):  `<field> <op> <arg>…`
-//!   field  f64 | f62 | f128 | q64 (QuadExtension<f64::BaseElement>, elements written `a:b`)
+//!   field  f64 | f62 | f128 | q64 q62 q128 (QuadExtension of the base field, elements written `a:b`)
+//!          | c64 c62 (CubeExtension, elements `a:b:c`)
 //!   a polynomial / vector argument is a comma separated list of elements, `-` is the empty list;
 //!   base-field elements are written as integers < 2^64 (2^128 for f128) and enter through
 //!   `BaseElement::new` (silent reduction), outputs are canonical integers.
@@ -17,59 +18,101 @@ use wf_harness::fields::*;
 use wf_harness::oracle::*;
 use winter_math::{
     add_in_place, batch_inversion,
-    fields::{f128, f62, f64, QuadExtension},
+    fields::{f128, f62, f64, CubeExtension, QuadExtension},
     get_power_series, get_power_series_with_offset, mul_acc, polynom, ExtensionOf, FieldElement, StarkField,
 };
 
 pub struct P;
 
 // ------------------------------------------------------------------------------------ oracle field
-/// oracle element: c0 + c1*phi (c1 = 0 in a base field)
+/// oracle element: c0 + c1*phi + c2*phi^2 (unused coordinates are 0)
 #[derive(Clone, Copy, PartialEq, Eq, Debug)]
-struct OE(u128, u128);
+struct OE([u128; 3]);
 
-/// oracle field: F_m, or F_m[phi]/(phi^2 - phi + 2) (the documented quadratic extension of f64)
+/// oracle field: F_m[phi]/(phi^k - red(phi)), k = 1 (base field), 2 or 3; `red` is the documented
+/// irreducible polynomial solved for phi^k
 #[derive(Clone, Copy)]
 struct OF {
     m: u128,
-    quad: bool,
+    k: usize,
+    red: [u128; 3],
 }
 
-const Z: OE = OE(0, 0);
-const ONE: OE = OE(1, 0);
+const Z: OE = OE([0, 0, 0]);
+const ONE: OE = OE([1, 0, 0]);
 
 impl OF {
     fn add(&self, a: OE, b: OE) -> OE {
-        OE(addmod(a.0, b.0, self.m), addmod(a.1, b.1, self.m))
+        OE([addmod(a.0[0], b.0[0], self.m), addmod(a.0[1], b.0[1], self.m), addmod(a.0[2], b.0[2], self.m)])
     }
     fn sub(&self, a: OE, b: OE) -> OE {
-        OE(submod(a.0, b.0, self.m), submod(a.1, b.1, self.m))
+        OE([submod(a.0[0], b.0[0], self.m), submod(a.0[1], b.0[1], self.m), submod(a.0[2], b.0[2], self.m)])
     }
     fn mul(&self, a: OE, b: OE) -> OE {
         let m = self.m;
-        if !self.quad {
-            return OE(mulmod(a.0, b.0, m), 0);
+        if self.k == 1 {
+            return OE([mulmod(a.0[0], b.0[0], m), 0, 0]);
         }
-        // phi^2 = phi - 2
-        let a0b0 = mulmod(a.0, b.0, m);
-        let a1b1 = mulmod(a.1, b.1, m);
-        let cross = addmod(mulmod(a.0, b.1, m), mulmod(a.1, b.0, m), m);
-        OE(submod(a0b0, addmod(a1b1, a1b1, m), m), addmod(cross, a1b1, m))
+        // schoolbook product, then phi^d = phi^(d-k) * red(phi) from the top down
+        let mut c = [0u128; 5];
+        for i in 0..self.k {
+            for j in 0..self.k {
+                c[i + j] = addmod(c[i + j], mulmod(a.0[i], b.0[j], m), m);
+            }
+        }
+        for d in (self.k..=2 * self.k - 2).rev() {
+            let t = c[d];
+            c[d] = 0;
+            for j in 0..self.k {
+                c[d - self.k + j] = addmod(c[d - self.k + j], mulmod(t, self.red[j], m), m);
+            }
+        }
+        OE([c[0], c[1], c[2]])
     }
+    /// inverse by solving (multiplication-by-a matrix) * y = 1 with Gaussian elimination over F_m
     fn inv(&self, a: OE) -> OE {
         let m = self.m;
-        if !self.quad {
-            return OE(invmod(a.0, m), 0);
-        }
         if a == Z {
             return Z;
         }
-        // conjugate: phi -> 1 - phi; norm = a0^2 + a0 a1 + 2 a1^2
-        let conj = OE(addmod(a.0, a.1, m), submod(0, a.1, m));
-        let a1sq = mulmod(a.1, a.1, m);
-        let norm = addmod(addmod(mulmod(a.0, a.0, m), mulmod(a.0, a.1, m), m), addmod(a1sq, a1sq, m), m);
-        let ni = invmod(norm, m);
-        OE(mulmod(conj.0, ni, m), mulmod(conj.1, ni, m))
+        let k = self.k;
+        if k == 1 {
+            return OE([invmod(a.0[0], m), 0, 0]);
+        }
+        // column j of the matrix is a * phi^j; rows are coordinates; augmented with e_0
+        let mut mat = [[0u128; 4]; 3];
+        let mut col = a;
+        let mut phi = Z;
+        phi.0[1] = 1;
+        for j in 0..k {
+            for i in 0..k {
+                mat[i][j] = col.0[i];
+            }
+            col = self.mul(col, phi);
+        }
+        mat[0][3] = 1;
+        for c in 0..k {
+            let p = (c..k).find(|r| mat[*r][c] != 0).expect("oracle: singular multiplication matrix");
+            mat.swap(c, p);
+            let pi = invmod(mat[c][c], m);
+            for x in 0..4 {
+                mat[c][x] = mulmod(mat[c][x], pi, m);
+            }
+            for r in 0..k {
+                if r != c && mat[r][c] != 0 {
+                    let f = mat[r][c];
+                    for x in 0..4 {
+                        mat[r][x] = submod(mat[r][x], mulmod(f, mat[c][x], m), m);
+                    }
+                }
+            }
+        }
+        let mut y = Z;
+        for i in 0..k {
+            y.0[i] = mat[i][3];
+        }
+        assert!(self.mul(a, y) == ONE, "oracle: inverse check");
+        y
     }
     fn pow(&self, a: OE, mut e: u64) -> OE {
         let mut r = ONE;
@@ -176,13 +219,13 @@ macro_rules! base_el {
     ($t:ty) => {
         impl El for $t {
             const NAME: &'static str = <$t as Fld>::NAME;
-            const OFLD: OF = OF { m: <$t as Fld>::MOD, quad: false };
+            const OFLD: OF = OF { m: <$t as Fld>::MOD, k: 1, red: [0, 0, 0] };
             type Sub = $t;
             fn parse(s: &str) -> Option<(Self, OE)> {
-                parse_word::<$t>(s).map(|(x, v)| (x, OE(v, 0)))
+                parse_word::<$t>(s).map(|(x, v)| (x, OE([v, 0, 0])))
             }
             fn oe(&self) -> OE {
-                OE(self.canon(), 0)
+                OE([self.canon(), 0, 0])
             }
         }
     };
@@ -192,29 +235,61 @@ base_el!(f62::BaseElement);
 base_el!(f128::BaseElement);
 
 type Q64 = QuadExtension<f64::BaseElement>;
-impl El for Q64 {
-    const NAME: &'static str = "q64";
-    const OFLD: OF = OF { m: M64, quad: true };
-    type Sub = f64::BaseElement;
-    fn parse(s: &str) -> Option<(Self, OE)> {
-        let (a, b) = s.split_once(':')?;
-        let (x, vx) = parse_word::<f64::BaseElement>(a)?;
-        let (y, vy) = parse_word::<f64::BaseElement>(b)?;
-        Some((Q64::new(x, y), OE(vx, vy)))
-    }
-    fn oe(&self) -> OE {
-        let b = self.to_base_elements();
-        OE(b[0].canon(), b[1].canon())
-    }
+type Q62 = QuadExtension<f62::BaseElement>;
+type Q128 = QuadExtension<f128::BaseElement>;
+type C64 = CubeExtension<f64::BaseElement>;
+type C62 = CubeExtension<f62::BaseElement>;
+
+macro_rules! quad_el {
+    ($t:ty, $b:ty, $name:expr, $red:expr) => {
+        impl El for $t {
+            const NAME: &'static str = $name;
+            const OFLD: OF = OF { m: <$b as Fld>::MOD, k: 2, red: $red };
+            type Sub = $b;
+            fn parse(s: &str) -> Option<(Self, OE)> {
+                let (a, b) = s.split_once(':')?;
+                let (x, vx) = parse_word::<$b>(a)?;
+                let (y, vy) = parse_word::<$b>(b)?;
+                Some((<$t>::new(x, y), OE([vx, vy, 0])))
+            }
+            fn oe(&self) -> OE {
+                let b = self.to_base_elements();
+                OE([b[0].canon(), b[1].canon(), 0])
+            }
+        }
+    };
 }
+macro_rules! cube_el {
+    ($t:ty, $b:ty, $name:expr, $red:expr) => {
+        impl El for $t {
+            const NAME: &'static str = $name;
+            const OFLD: OF = OF { m: <$b as Fld>::MOD, k: 3, red: $red };
+            type Sub = $b;
+            fn parse(s: &str) -> Option<(Self, OE)> {
+                let (a, rest) = s.split_once(':')?;
+                let (b, c) = rest.split_once(':')?;
+                let (x, vx) = parse_word::<$b>(a)?;
+                let (y, vy) = parse_word::<$b>(b)?;
+                let (z, vz) = parse_word::<$b>(c)?;
+                Some((<$t>::new(x, y, z), OE([vx, vy, vz])))
+            }
+            fn oe(&self) -> OE {
+                let b = self.to_base_elements();
+                OE([b[0].canon(), b[1].canon(), b[2].canon()])
+            }
+        }
+    };
+}
+// the documented irreducible polynomials, solved for the leading power of phi
+quad_el!(Q64, f64::BaseElement, "q64", [M64 - 2, 1, 0]); // phi^2 = phi - 2
+quad_el!(Q62, f62::BaseElement, "q62", [1, 1, 0]); // phi^2 = phi + 1
+quad_el!(Q128, f128::BaseElement, "q128", [1, 1, 0]); // phi^2 = phi + 1
+cube_el!(C64, f64::BaseElement, "c64", [1, 1, 0]); // phi^3 = phi + 1
+cube_el!(C62, f62::BaseElement, "c62", [M62 - 2, M62 - 2, 0]); // phi^3 = -2 phi - 2
 
 fn show<E: El>(x: &E) -> String {
     let o = x.oe();
-    if E::OFLD.quad {
-        format!("{}:{}", o.0, o.1)
-    } else {
-        format!("{}", o.0)
-    }
+    (0..E::OFLD.k).map(|i| o.0[i].to_string()).collect::<Vec<_>>().join(":")
 }
 /// output form of a list; the empty list is `[]` (a bare `-` output would mean "not modelled")
 fn show_list<E: El>(xs: &[E]) -> String {
@@ -666,7 +741,7 @@ struct G<'a> {
     f: &'static str,
     m: u128,
     bits: u32,
-    quad: bool,
+    deg: usize, // extension degree of the field (1 = base field)
     rng: &'a mut Rng,
     sub: bool, // generate elements of the sub-field (for q64: plain f64 words)
 }
@@ -687,18 +762,26 @@ impl<'a> G<'a> {
             },
         }
     }
-    fn el(&mut self) -> String {
-        if self.quad && !self.sub {
-            format!("{}:{}", self.word(), self.word())
+    /// degree of the elements currently generated
+    fn k(&self) -> usize {
+        if self.sub {
+            1
         } else {
-            format!("{}", self.word())
+            self.deg
         }
+    }
+    fn coords(&self, c: &[u128]) -> String {
+        c.iter().map(|x| x.to_string()).collect::<Vec<_>>().join(":")
+    }
+    fn el(&mut self) -> String {
+        let c: Vec<u128> = (0..self.k()).map(|_| self.word()).collect();
+        self.coords(&c)
     }
     fn nz_el(&mut self) -> String {
         loop {
-            let e = self.el();
-            if e != "0" && e != "0:0" && e != format!("{}", self.m) && e != format!("{}:{}", self.m, self.m) {
-                return e;
+            let c: Vec<u128> = (0..self.k()).map(|_| self.word()).collect();
+            if c.iter().any(|x| x % self.m != 0) {
+                return self.coords(&c);
             }
         }
     }
@@ -716,37 +799,41 @@ impl<'a> G<'a> {
         join(&v)
     }
     fn zero(&self) -> String {
-        if self.quad && !self.sub {
-            "0:0".into()
-        } else {
-            "0".into()
-        }
+        self.coords(&vec![0u128; self.k()])
     }
     /// pairwise distinct elements
     fn distinct(&mut self, n: usize) -> Vec<String> {
         let mut v: Vec<String> = vec![];
         while v.len() < n {
             // small values make collisions modulo p impossible to miss: keep them canonical
-            let e = if self.rng.chance(1, 4) {
-                let w = self.rng.below(8) as u128;
-                if self.quad { format!("{}:{}", w, self.rng.below(3)) } else { format!("{}", w) }
-            } else {
-                let a = self.word() % self.m;
-                if self.quad { format!("{}:{}", a, self.word() % self.m) } else { format!("{}", a) }
-            };
+            let small = self.rng.chance(1, 4);
+            let c: Vec<u128> = (0..self.k())
+                .map(|i| {
+                    if small {
+                        self.rng.below(if i == 0 { 8 } else { 3 }) as u128
+                    } else {
+                        self.word() % self.m
+                    }
+                })
+                .collect();
+            let e = self.coords(&c);
             if !v.contains(&e) {
                 v.push(e);
             }
         }
         v
     }
-    /// boundary elements {0, 1, 2, p-1} (quad: {0, 1, phi, (p-1)+(p-1)phi})
+    /// boundary elements {0, 1, 2, p-1} (extensions: {0, 1, phi, (p-1)(1 + phi (+ phi^2))})
     fn bset(&self) -> Vec<String> {
-        if self.quad && !self.sub {
-            vec!["0:0".into(), "1:0".into(), "0:1".into(), format!("{}:{}", self.m - 1, self.m - 1)]
-        } else {
-            vec!["0".into(), "1".into(), "2".into(), format!("{}", self.m - 1)]
+        let k = self.k();
+        if k == 1 {
+            return vec!["0".into(), "1".into(), "2".into(), format!("{}", self.m - 1)];
         }
+        let mut one = vec![0u128; k];
+        one[0] = 1;
+        let mut phi = vec![0u128; k];
+        phi[1] = 1;
+        vec![self.coords(&vec![0; k]), self.coords(&one), self.coords(&phi), self.coords(&vec![self.m - 1; k])]
     }
     /// all lists over the boundary set with length <= maxlen
     fn small(&self, maxlen: usize) -> Vec<String> {
@@ -777,14 +864,28 @@ fn join(v: &[String]) -> String {
     }
 }
 
-fn gen_f(fname: &'static str, m: u128, bits: u32, quad: bool, rng: &mut Rng, tier: Tier, n: usize, emit: &mut dyn FnMut(String)) {
+/// `light`: the further extension fields get the same generators on smaller exhaustive sets (the code
+/// under test is generic; they mainly add the extension arithmetic of C08 to the picture)
+#[allow(clippy::too_many_arguments)]
+fn gen_f(
+    fname: &'static str,
+    m: u128,
+    bits: u32,
+    deg: usize,
+    light: bool,
+    rng: &mut Rng,
+    tier: Tier,
+    n: usize,
+    emit: &mut dyn FnMut(String),
+) {
+    let quad = deg > 1;
     let f = fname;
     let thorough = tier == Tier::Thorough;
-    let mut g = G { f, m, bits, quad, rng, sub: false };
+    let mut g = G { f, m, bits, deg, rng, sub: false };
     let bset = g.bset();
-    let s4 = g.small(4);
-    let s3 = g.small(3);
     let s2 = g.small(2);
+    let s4 = if light { s2.clone() } else { g.small(4) };
+    let s3 = if light { s2.clone() } else { g.small(3) };
     let s1 = g.small(1);
     let sub_small2 = {
         g.sub = true;
@@ -892,7 +993,13 @@ fn gen_f(fname: &'static str, m: u128, bits: u32, quad: bool, rng: &mut Rng, tie
         }
         emit(format!("{} psero {} {} {}", f, g.el(), zero, nn));
     }
-    for nn in if thorough { vec![1023usize, 1024, 1025, 2048, 2049] } else { vec![1023usize, 1024, 1025] } {
+    for nn in if thorough {
+        vec![1023usize, 1024, 1025, 2048, 2049]
+    } else if light {
+        vec![1024usize, 1025]
+    } else {
+        vec![1023usize, 1024, 1025]
+    } {
         // zeros at the chunk borders and at random positions
         let mut v: Vec<String> = (0..nn).map(|_| g.nz_el()).collect();
         emit(format!("{} binv {}", f, join(&v)));
@@ -911,14 +1018,14 @@ fn gen_f(fname: &'static str, m: u128, bits: u32, quad: bool, rng: &mut Rng, tie
         emit(format!("{} mulacc {} {} {}", f, a, bs, g.el()));
     }
     // vectors with a zero at every position / every pattern of zeros
-    for len in 1..=(if thorough { 10 } else { 7 }) {
+    for len in 1..=(if thorough { 10 } else if light { 4 } else { 7 }) {
         let base: Vec<String> = (0..len).map(|_| g.nz_el()).collect();
         for mask in 0u32..(1 << len) {
             let v: Vec<String> = (0..len).map(|i| if mask >> i & 1 == 1 { zero.clone() } else { base[i].clone() }).collect();
             emit(format!("{} binv {}", f, join(&v)));
         }
     }
-    for len in [16usize, 33, 100] {
+    for len in if light && !thorough { vec![16usize] } else { vec![16usize, 33, 100] } {
         let base: Vec<String> = (0..len).map(|_| g.nz_el()).collect();
         for pos in 0..len {
             let mut v = base.clone();
@@ -1077,10 +1184,14 @@ impl Prop for P {
     }
     fn gen(&self, rng: &mut Rng, tier: Tier, n: usize, emit: &mut dyn FnMut(String)) {
         let n = default_n(tier, 1_200, 60_000, n);
-        gen_f("f64", M64, 64, false, rng, tier, n, emit);
-        gen_f("f62", M62, 64, false, rng, tier, n, emit);
-        gen_f("f128", M128, 128, false, rng, tier, n / 2, emit);
-        gen_f("q64", M64, 64, true, rng, tier, n / 2, emit);
+        gen_f("f64", M64, 64, 1, false, rng, tier, n, emit);
+        gen_f("f62", M62, 64, 1, false, rng, tier, n, emit);
+        gen_f("f128", M128, 128, 1, false, rng, tier, n / 2, emit);
+        gen_f("q64", M64, 64, 2, false, rng, tier, n / 2, emit);
+        gen_f("q62", M62, 64, 2, true, rng, tier, n / 6, emit);
+        gen_f("q128", M128, 128, 2, true, rng, tier, n / 6, emit);
+        gen_f("c64", M64, 64, 3, true, rng, tier, n / 6, emit);
+        gen_f("c62", M62, 64, 3, true, rng, tier, n / 6, emit);
         emit("f63 eval 1 1".into());
     }
     fn exec(&self, line: &str) -> Outcome {
@@ -1090,6 +1201,10 @@ impl Prop for P {
             "f62" => exec_f::<f62::BaseElement>(&t[1..]),
             "f128" => exec_f::<f128::BaseElement>(&t[1..]),
             "q64" => exec_f::<Q64>(&t[1..]),
+            "q62" => exec_f::<Q62>(&t[1..]),
+            "q128" => exec_f::<Q128>(&t[1..]),
+            "c64" => exec_f::<C64>(&t[1..]),
+            "c62" => exec_f::<C62>(&t[1..]),
             _ => Outcome::ok("bad-op"),
         }
     }
@@ -1108,7 +1223,7 @@ impl Prop for P {
         Some("harness.panic".into())
     }
     fn rule(&self) -> &'static str {
-        "every list over {0,1,2,p-1} (q64: {0,1,phi,(p-1)(1+phi)}) of length <= 4 for each unary operation and as dividend of synthetic \
+        "every list over {0,1,2,p-1} (extension fields q64 q62 q128 c64 c62: {0,1,phi,(p-1)(1+phi(+phi^2))}, the last four on smaller exhaustive sets) of length <= 4 for each unary operation and as dividend of synthetic \
          division with a in 0..5 and b in {1,2,p-1,0}; all pairs of such lists of length <= 2 (thorough: <= 3) and long x short pairs for \
          add/sub/mul/div/add_in_place; interpolation over every small point list incl. empty, singletons, duplicates and 0; batch inversion \
          with every pattern of zeros up to length 7 (thorough 10) and a zero at every position of longer vectors; sizes 0,1,2,3,1023,1024,1025 \
